@@ -263,7 +263,11 @@ def main(argv):
     violations = []      # (replay_path, suffix)
     known_hits = {}
     known = [k for k in load_known() if k.get("property") == prop]
-    open_sigs = {k["signature"]: k for k in known if k.get("status") == "open"}
+    open_sigs = {}
+    for k in known:
+        if k.get("status") == "open":
+            for sg in ([k["signature"]] if "signature" in k else []) + k.get("signatures", []):
+                open_sigs[sg] = k
 
     def add_violation(name, payload, no_input=False):
         h = hashlib.sha1(canon(payload).encode()).hexdigest()[:10]
@@ -398,7 +402,11 @@ def main(argv):
 
 def finish(prop, a, cfg, t0, violations, known_hits, obligations, discharged, checker_cmd, thm_names, stats, known, lean_fail):
     wall = time.time() - t0
-    open_k = {k["signature"]: k for k in known if k.get("status") == "open"}
+    open_k = {}
+    for k in known:
+        if k.get("status") == "open":
+            for sg in ([k["signature"]] if "signature" in k else []) + k.get("signatures", []):
+                open_k[sg] = k
     for sig, n in sorted(known_hits.items()):
         print(f"KNOWN-FINDING: property={prop} {open_k[sig].get('what', sig)} [signature {sig}, {n} case(s) this run]")
     cov = {
